@@ -33,9 +33,10 @@ NumsOf(t)  == {p[2] : p \in t} \cup (1..nbase)
 SeqToSet(s) == {s[i] : i \in 1..Len(s)}
 
 Consistent(t, name, num) ==
-    \/ <<name, num>> \in t
-    \/ (name \in BaseNames /\ num \in 1..nbase /\ \A p \in t : p[2] # num)
-    \/ (name \notin NamesOf(t) /\ num \notin NumsOf(t))
+    /\ num >= 1                \* an interned symbol has a number of the table (they start at 1)
+    /\ \/ <<name, num>> \in t
+       \/ (name \in BaseNames /\ num \in 1..nbase /\ \A p \in t : p[2] # num)
+       \/ (name \notin NamesOf(t) /\ num \notin NumsOf(t))
 
 TInit == ci \in 1..Len(Cases) /\ pos = 1 /\ verdict = "run" /\ tab = {} /\ nbase = 0
 
